@@ -167,7 +167,7 @@ func extras(has func(pkg, name string) bool) {
 			case 0:
 				return try.Pure(fp.Some("k(" + a + ")"))
 			case 1:
-				return try.Failure[fp.Option[string]](E[0])
+				return FailedTry[fp.Option[string]](e, 0)
 			case 2:
 				return try.Pure(fp.None[string]())
 			}
